@@ -66,7 +66,14 @@ type world struct {
 	exfacts  []isaac.SuffrageExpelFact
 	exhashes []util.Hash
 	exsigns  [][]base.NodeSign // [signer][target]
+
+	// honest votes of neighbouring points of the same world: [kind][letter]
+	// kind 0 = next round, 1 = next height, 2 = other stage of the same point
+	ffacts [3][2]base.BallotFact
+	fsigns [3][2][]base.BallotSignFact // [kind][letter][member]
 }
+
+var foreignName = []string{"other-round", "other-height", "other-stage"}
 
 func (w *world) String() string { return fmt.Sprintf("n%d:t%d.%d:%s", w.n, w.t10/10, w.t10%10, w.stage) }
 
@@ -90,19 +97,23 @@ func key(i int) base.Privatekey {
 }
 
 func (w *world) fact(letter int, expelfacts []util.Hash) base.BallotFact {
+	return w.factAt(w.point, w.stage, letter, expelfacts)
+}
+
+func (w *world) factAt(point base.Point, stage base.Stage, letter int, expelfacts []util.Hash) base.BallotFact {
 	var ef []util.Hash
 	if len(expelfacts) > 0 {
 		ef = append(ef, expelfacts...)
 	}
-	if w.stage == base.StageINIT {
-		return isaac.NewINITBallotFact(w.point, w.prev, w.props[letter], ef)
+	if stage == base.StageINIT {
+		return isaac.NewINITBallotFact(point, w.prev, w.props[letter], ef)
 	}
-	return isaac.NewACCEPTBallotFact(w.point, w.props[0], w.blocks[letter], ef)
+	return isaac.NewACCEPTBallotFact(point, w.props[0], w.blocks[letter], ef)
 }
 
 func (w *world) sign(node int, fact base.BallotFact) base.BallotSignFact {
 	l := w.locals[node]
-	if w.stage == base.StageINIT {
+	if fact.Point().Stage() == base.StageINIT {
 		sf := isaac.NewINITBallotSignFact(fact.(base.INITBallotFact))
 		if err := sf.NodeSign(l.Privatekey(), networkID, l.Address()); err != nil {
 			panic(err)
@@ -144,6 +155,28 @@ func newWorld(n, t10 int, stage base.Stage) *world {
 		w.psigns[l] = make([]base.BallotSignFact, n+2)
 		for i := 0; i < n+2; i++ {
 			w.psigns[l][i] = w.sign(i, w.pfacts[l])
+		}
+	}
+	other := base.StageACCEPT
+	if stage == base.StageACCEPT {
+		other = base.StageINIT
+	}
+	for fk := 0; fk < 3; fk++ {
+		pt, stg := w.point, stage
+		switch fk {
+		case 0:
+			pt = w.point.NextRound()
+		case 1:
+			pt = w.point.NextHeight()
+		case 2:
+			stg = other
+		}
+		for l := 0; l < 2; l++ {
+			w.ffacts[fk][l] = w.factAt(pt, stg, l, nil)
+			w.fsigns[fk][l] = make([]base.BallotSignFact, n)
+			for i := 0; i < n; i++ {
+				w.fsigns[fk][l][i] = w.sign(i, w.ffacts[fk][l])
+			}
 		}
 	}
 	w.exfacts = make([]isaac.SuffrageExpelFact, n)
@@ -348,6 +381,8 @@ type accepted struct {
 	pattern int
 	signers [][]int
 	extra   string
+	fpt     int  // 0: majority fact of the voteproof's own point; 1..3: of another round / height / stage
+	xmask   uint // members whose sign fact in the voteproof is a vote of another point (not a vote for this stage point)
 }
 
 func (a accepted) witness(w *world) map[string]any {
@@ -375,6 +410,12 @@ func (a accepted) witness(w *world) map[string]any {
 	}
 	if a.extra != "" {
 		m["variant"] = a.extra
+	}
+	if a.fpt > 0 {
+		m["majority"] = string(rune('A'+a.maj)) + " voted at " + foreignName[a.fpt-1]
+	}
+	if a.xmask != 0 {
+		m["sign_facts_that_are_votes_of_another_point"] = set(a.xmask)
 	}
 	return m
 }
@@ -541,6 +582,10 @@ func (tk task) run(st *stats) []accepted {
 		}
 	}
 
+	// set by the foreign-point candidates around their try calls
+	var curFpt int
+	var curXmask uint
+	var curMajFact base.BallotFact
 	try := func(kind, maj, style, pat int, sfs []base.BallotSignFact, fmask, gmask uint, flags []string, extra string, proper bool) {
 		sf := sfacts[style]
 		var o opset
@@ -557,6 +602,9 @@ func (tk task) run(st *stats) []accepted {
 		if maj >= 0 {
 			mf = sf.facts[maj]
 		}
+		if curMajFact != nil {
+			mf = curMajFact
+		}
 		vp := w.build(kind, mf, sfs, o.ops, proper)
 		okv := w.validate(st, kind, vp)
 		st.distinct[fmt.Sprintf("%s|%s|k%d|f%d|g%d|p%d|s%d|m%d|%v|%v", w, kindName[kind], k, bits.OnesCount(fmask), bits.OnesCount(gmask), pat, style, maj, flags, okv)] = struct{}{}
@@ -569,10 +617,18 @@ func (tk task) run(st *stats) []accepted {
 		}
 		st.acceptedMaj++
 		bind := sf.bind
-		out = append(out, accepted{
+		a := accepted{
 			kind: kind, maj: maj, bind: bind, emask: tk.emask, fmask: fmask, gmask: gmask,
-			desc: w.describe(kind, tk.emask, fmask, gmask, o.minsigns, flags), pattern: pat, signers: o.signers, extra: extra,
-		})
+			pattern: pat, signers: o.signers, extra: extra, fpt: curFpt, xmask: curXmask,
+		}
+		// the shape counts votes for the majority fact whatever point they were cast for
+		vm := fmask
+		if curFpt > 0 {
+			vm = curXmask
+			a.fmask = 0 // votes of another point are not votes for this stage point
+		}
+		a.desc = w.describe(kind, tk.emask, vm, gmask|curXmask, o.minsigns, flags)
+		out = append(out, a)
 	}
 
 	nst := pow3(r)
@@ -642,6 +698,54 @@ func (tk task) run(st *stats) []accepted {
 				if maj == 0 && style == 0 {
 					try(kindStuck, -1, 0, patRuleRemaining, sfs, fmask, gmask, nil, "proper stuck voteproof (no majority)", true)
 					try(kindExpel, -1, 0, patRuleRemaining, sfs, fmask, gmask, nil, "draw", false)
+				}
+			}
+		}
+	}
+
+	// ---- votes of a neighbouring point packed into a voteproof of this point --
+	// Honest nodes vote for other facts in the next round, at the next height
+	// and in the other stage; those sign facts exist in every world and are not
+	// votes for this stage point.
+	if tk.sample == nil {
+		need := w.q
+		kinds := []int{kindPlain}
+		if k > 0 {
+			need = r
+			kinds = []int{kindExpel, kindStuck}
+		}
+		for fk := 0; fk < 3; fk++ {
+			for maj := 0; maj < 2; maj++ {
+				for _, kind := range kinds {
+					for _, m := range []int{need - 1, need, r} {
+						if m < 1 || m > r {
+							continue
+						}
+						// (a) the whole voteproof is made of the other point's votes
+						var sfs []base.BallotSignFact
+						var xm uint
+						for _, nd := range remaining[:m] {
+							sfs = append(sfs, w.fsigns[fk][maj][nd])
+							xm |= 1 << uint(nd)
+						}
+						curFpt, curXmask, curMajFact = fk+1, xm, w.ffacts[fk][maj]
+						try(kind, maj, 0, patRuleRemaining, sfs, 0, 0, []string{"majority-and-votes-of-" + foreignName[fk]}, "sign facts and majority voted at " + foreignName[fk], false)
+						curFpt, curXmask, curMajFact = 0, 0, nil
+						// (b) majority of this point, one vote short, topped up with a vote of the other point
+						if m >= 2 {
+							var own []base.BallotSignFact
+							var fm uint
+							for _, nd := range remaining[:m-1] {
+								own = append(own, sfacts[0].signs[maj][nd])
+								fm |= 1 << uint(nd)
+							}
+							last := remaining[m-1]
+							own = append(own, w.fsigns[fk][maj][last])
+							curXmask = 1 << uint(last)
+							try(kind, maj, 0, patRuleRemaining, own, fm, 0, []string{"one-vote-of-" + foreignName[fk]}, "one sign fact voted at " + foreignName[fk], false)
+							curXmask = 0
+						}
+					}
 				}
 			}
 		}
@@ -783,7 +887,7 @@ func pairUp(w *world, acc []accepted, found map[string]*violation, counts map[st
 	for i := 0; i < len(list); i++ {
 		for j := i + 1; j < len(list); j++ {
 			a, b := list[i], list[j]
-			if a.maj == b.maj && a.bind == b.bind {
+			if a.maj == b.maj && a.bind == b.bind && a.fpt == b.fpt {
 				continue // same majority fact
 			}
 			pairs++
@@ -814,10 +918,11 @@ func pairUp(w *world, acc []accepted, found map[string]*violation, counts map[st
 func TestC03(t *testing.T) {
 	r := vlib.Start(t, "C03", vlib.LevelExploration)
 	defer r.Finish()
-	r.SetRule("world = (n real key pairs as suffrage, threshold t, stage INIT/ACCEPT, two facts A and B at one stage point, real signed sign facts of every node for both facts, real expel operations assembled from real node signatures); case = one candidate voteproof (plain / expel / stuck; majority A, B or none; every assignment {absent, votes majority fact, votes other fact, expelled} of the nodes; 8 expel-signer patterns; ballot facts with and without expel facts; variants with repeated sign facts, non-member, wrong key, expelled voter) passed through the real IsValidVoteproofWithSuffrage and vp.IsValid; oracle pairs only accepted voteproofs with different majority facts and asks whether the nodes that signed two different facts number <= f; distinct = (world, kind, k, #majority votes, #other votes, signer pattern, fact style, majority, flags, accepted)")
+	r.SetRule("world = (n real key pairs as suffrage, threshold t, stage INIT/ACCEPT, two facts A and B at one stage point, real signed sign facts of every node for both facts, real expel operations assembled from real node signatures); case = one candidate voteproof (plain / expel / stuck; majority A, B or none; every assignment {absent, votes majority fact, votes other fact, expelled} of the nodes; 8 expel-signer patterns; ballot facts with and without expel facts; variants with repeated sign facts, non-member, wrong key, expelled voter; voteproofs packed with the honest votes of a neighbouring point - next round, next height, other stage - as majority and sign facts, or as one topping-up vote) passed through the real IsValidVoteproofWithSuffrage and vp.IsValid; oracle pairs only accepted voteproofs with different majority facts and asks whether the nodes that signed two different facts number <= f; distinct = (world, kind, k, #majority votes, #other votes, signer pattern, fact style, majority, flags, accepted)")
 	r.Assume("every candidate of a world carries the world's threshold (stuck voteproofs: 100, as their validation demands); f = n - ceil(n*t/100) in exact integer arithmetic")
 	r.Assume("who signs an expel operation is unconstrained (statement: any suffrage node may sign expels); equivocation = one suffrage node signing two different ballot facts for the stage point")
 	r.Assume("ballot facts that carry different expel facts are different facts")
+	r.Assume("a sign fact whose ballot fact belongs to another round, height or stage is an honest vote for that other point: it does not make its signer an equivocator at this stage point")
 
 	type wspec struct {
 		n, t10 int
@@ -1000,6 +1105,9 @@ func TestC03(t *testing.T) {
 			w.n, w.th, w.stage, w.f, eqs,
 			kindName[v.a.kind], wa["majority"], wa["expelled"], wa["voters_for_majority"],
 			kindName[v.b.kind], wb["majority"], wb["expelled"], wb["voters_for_majority"])
+		if v.a.xmask != 0 || v.b.xmask != 0 {
+			what += fmt.Sprintf("; sign facts that are votes of another point: %v / %v", wa["sign_facts_that_are_votes_of_another_point"], wb["sign_facts_that_are_votes_of_another_point"])
+		}
 		r.Violation("agreement:"+s, what, map[string]any{
 			"n": w.n, "threshold": w.th.String(), "stage": w.stage.String(), "f": w.f, "equivocators": eqs,
 			"voteproof_1": wa, "voteproof_2": wb, "violating_pairs_with_this_signature": counts[s],
